@@ -5,6 +5,9 @@ VERIF = os.path.dirname(os.path.dirname(os.path.abspath(__file__)))
 ALL = ["C%02d" % i for i in range(1, 21)]
 
 CHECKS = {
+ "C19": dict(engine="I", technique="exhaustive enumeration of finite input domains on the real codecs under ASan/UBSan with exact-size heap outputs, compared against independent bitwise / python (hashlib, zlib, binascii, pure-python AES) references",
+   text="Every byte string up to length 2-3 over the full byte range (and longer over boundary alphabets and patterns) as encoder and as decoder input, every output capacity (exact, one short, zero), every scalable-integer value around each length boundary and every short encoded string, every short typed-field sequence for the serializer in both endians, CRC/checksum/MD5 (all 2-way and a grid of 3-way update splits) and AES-128 (KAT vectors, all single-bit key x block pairs) are enumerated and compared with independent references; any sanitizer report is attributed to its input.",
+   note="Trusted: the references (bitwise CRC from the polynomial, RFC 1071 sum, hashlib/zlib/binascii, a pure-python AES written from FIPS-197), ASan/UBSan with recover mode; MD5/AES equality is decided on the enumerated set only.", ref="2/C19"),
  "C09": dict(engine="S+I", technique="stateless model checking of the real log path (LogPrintfFunc -> Sink/AsyncSink -> AsyncPipe) under the cooperative scheduler with preemption/timed-flush bounds, TSan on every schedule; exhaustive input/configuration sweeps for lengths, filters and file roll-over",
    text="All interleavings up to the bound of 1-2 logging threads, the pipe's background thread (timed flush as deviation) and disable() are executed with pipe buffers smaller than one record; each sink must hold exactly the expected records, byte for byte, each once, per-thread order kept, complete when disable() returns. Text lengths around 0, the 2 KiB stack buffer and the configured maximum, every level x default/per-module threshold combination on both sink kinds, and file-sink size limits from 1 byte to several records with same-second roll-over are enumerated exhaustively.",
    note="Trusted: scheduler model incl. virtual clock for timed waits, TSan/ASan; module/function/file strings static as in real use; max length 0 excluded.", ref="2/C09"),
